@@ -96,12 +96,15 @@ def reader_listings(ctx):
             a = arg(c, 0)
             if a is None:
                 continue
-            if "location" not in norm(a) and not any(("location" in norm(d[1])) for nm_ in ast.walk(a) if isinstance(nm_, ast.Name)
-                                                       for d in [single_def(fi, nm_.id)] if d):
-                continue   # not the crop directory (slurm outputs, parent-directory walk)
             for env, site in call_site_envs(ctx, fi):
-                folded = ConstFold(ctx, fi, env).ev(a)
-                need(isinstance(folded, str) and folded.startswith(LOCATION_STANDIN), "listing path did not fold: %s" % norm(a))
+                try:
+                    folded = ConstFold(ctx, fi, env).ev(a)
+                except AnalysisError:
+                    if "location" in norm(a):
+                        raise AnalysisError("listing path did not fold: %s in %s" % (norm(a), fi.qualname))
+                    continue       # not the crop directory (slurm outputs, parent-directory walk)
+                if not (isinstance(folded, str) and folded.startswith(LOCATION_STANDIN)):
+                    continue
                 rel = folded[len(LOCATION_STANDIN):].strip("/").split("/")
                 sub = rel[0] if rel and rel[0] in ("results", "batches") else None
                 if sub is None:
@@ -192,8 +195,8 @@ def check_writer(ctx, rr, fi, cfg, open_node, open_call):
         rr.ok("R1c %s: %s moves the temporary onto parameter %r" % (q, norm(rn), final))
 
         # (b) same directory + process-unique component
-        uniq = [callee_name(ctx, fi, c) for c in ast.walk(tmp_expr) if isinstance(c, ast.Call)]
-        uniq = [u for u in uniq if u in UNIQUE_SOURCES]
+        from ..util import calls_transitive
+        uniq = [u for u in calls_transitive(ctx, fi, tmp_expr) if u in UNIQUE_SOURCES]
         if not uniq:
             rr.bad(ctx.finding(rr.rule, fi, tmp_expr, "temporary name %s has no process-unique component: two growers of the same batch (or of any batch, if the name is constant) write the same temporary" % norm(tmp_expr),
                                construct="tmp-not-unique " + norm(tmp_expr)), "R1b unique temporary")
@@ -202,7 +205,7 @@ def check_writer(ctx, rr, fi, cfg, open_node, open_call):
         samples = ["/scratch/.xyz-f/results/xyz-result-7.jbdmp", "/scratch/.xyz-f/batches/xyz-batch-12.jbdmp",
                    "/scratch/.xyz-f/xyz-settings.jbdmp", "/scratch/.xyz-f/xyz-function.clpkl"]
         listings = reader_listings(ctx)
-        need(len(listings) >= 3, "anchor lost: expected >= 3 directory listings of results/batches in the cropping module, found %d" % len(listings))
+        need(len(listings) >= 2, "anchor lost: expected >= 2 directory listings of results/batches in the cropping module, found %d" % len(listings))
         for s in samples:
             t = ConstFold(ctx, fi, {final: s}).ev(tmp_expr)
             need(isinstance(t, str), "temporary name did not fold to a string")
@@ -315,61 +318,79 @@ def run(ctx):
 
     # ---- R3 waiting reaper polls the final name, then loads
     r3 = ctx.rule("C11.R3", "wait mode: load dominated by the exit of an exists() poll on the final name", floor=3)
-    init = prog.need_func("xyzpy.gen.cropping.Reaper.__init__")
-    wl = init.nested.get("wait_to_load")
-    ld = init.nested.get("_load")
-    need(wl is not None and ld is not None, "anchor lost: Reaper.__init__ closures wait_to_load / _load")
+    from .shared import reaper_loaders
+    ld, wl, init = reaper_loaders(ctx)
+    need(wl is not None, "anchor lost: the Reaper's polling loader")
     ctx.touch(wl, build_cfg(wl.node))
     ctx.touch(ld, build_cfg(ld.node))
     g = build_cfg(wl.node)
-    x = wl.positional[0]
+    xs = [p_ for p_ in wl.positional if p_ not in ("self",)]
+    need(xs, "idiom changed: the polling loader takes no file name")
+    x = xs[0]
     loads = [(n, c) for n, c, nm in all_calls(ctx, wl, g) if nm == ld.qualname]
-    need(len(loads) >= 1, "anchor lost: wait_to_load does not call _load")
-    polls = []
-    for n in g.nodes:
-        if n.kind == "test" and isinstance(n.stmt, ast.While):
-            t = n.ast
-            neg = isinstance(t, ast.UnaryOp) and isinstance(t.op, ast.Not)
-            inner = t.operand if neg else t
-            if isinstance(inner, ast.Call) and callee_name(ctx, wl, inner) in ("os.path.exists", "os.path.isfile") and \
-                    isinstance(arg(inner, 0), ast.Name) and arg(inner, 0).id == x and neg:
-                polls.append(n)
+    need(len(loads) >= 1, "anchor lost: the polling loader does not call the loader")
+
+    def poll_tests(fn, gg, pname):
+        out = []
+        for n in gg.nodes:
+            if n.kind == "test" and isinstance(n.stmt, ast.While):
+                t = n.ast
+                neg = isinstance(t, ast.UnaryOp) and isinstance(t.op, ast.Not)
+                inner = t.operand if neg else t
+                if isinstance(inner, ast.Call) and callee_name(ctx, fn, inner) in ("os.path.exists", "os.path.isfile") and \
+                        isinstance(arg(inner, 0), ast.Name) and arg(inner, 0).id == pname and neg:
+                    out.append(n)
+        return out
+    from ..util import callee_func
+    polls = [(p, "inline") for p in poll_tests(wl, g, x)]
+    for n, c, nm in all_calls(ctx, wl, g):
+        cf = callee_func(ctx, wl, c)
+        if cf is not None and cf is not ld and c.args and isinstance(c.args[0], ast.Name) and c.args[0].id == x:
+            hg = build_cfg(cf.node)
+            hp = poll_tests(cf, hg, cf.positional[0]) if cf.positional else []
+            if hp:
+                ctx.touch(cf, hg)
+                # the helper returns normally only through the loop's exit
+                okh = all(not [b for b in ast.walk(q.stmt) if isinstance(b, (ast.Break, ast.Return))] for q in hp) and \
+                    hg.exit.id not in hg.reachable(blocked_nodes=[q.id for q in hp])
+                if okh:
+                    polls.append((n, "helper %s" % cf.name))
+                else:
+                    r3.bad(ctx.finding(r3.rule, cf, cf.node, "the polling helper %s can return without the file existing" % cf.name, construct="poll-helper-early-exit"), "poll helper")
     if not polls:
         for n, c in loads:
-            r3.bad(ctx.finding(r3.rule, wl, c, "wait_to_load loads without first polling os.path.exists on the file name: a waiting reaper fails on a result that is not there yet",
+            r3.bad(ctx.finding(r3.rule, wl, c, "in wait mode the result is loaded without first polling os.path.exists on its name: a waiting reaper fails on a result that is not there yet",
                                construct="no-poll"), "poll before load")
-    for p in polls:
-        # the only way out of the loop is the test's false edge (file exists)
-        body_breaks = [b for b in ast.walk(p.stmt) if isinstance(b, (ast.Break, ast.Return))]
-        if body_breaks:
-            r3.bad(ctx.finding(r3.rule, wl, body_breaks[0], "the poll loop can be left without the file existing (break / return inside it)", construct="poll-loop-break"),
-                   "poll loop exits only when the file exists")
-        else:
-            r3.ok("poll loop `%s` exits only through its condition" % norm(p.ast))
+    for p, how in polls:
+        if how == "inline":
+            body_breaks = [b for b in ast.walk(p.stmt) if isinstance(b, (ast.Break, ast.Return))]
+            if body_breaks:
+                r3.bad(ctx.finding(r3.rule, wl, body_breaks[0], "the poll loop can be left without the file existing (break / return inside it)", construct="poll-loop-break"),
+                       "poll loop exits only when the file exists")
+                continue
+        r3.ok("existence poll on %r (%s) exits only when the file exists" % (x, how))
         for n, c in loads:
             a0 = arg(c, 0)
             same = isinstance(a0, ast.Name) and a0.id == x
-            fe = [(p.id, b, l) for b, l in g.succ[p.id] if l == "t"]
-            # load reachable only after the false (exists) edge of the poll
-            dom = g.dominates(p.id, n.id)
+            dom = g.dominates(p.id, n.id) if how == "inline" else g.completes_before(p.id, n.id)
             if not (dom and same):
-                r3.bad(ctx.finding(r3.rule, wl, c, "the load is not dominated by the existence poll of the same name", construct="load-not-dominated"), "load after poll")
+                r3.bad(ctx.finding(r3.rule, wl, c, "the load is not preceded on every path by the existence poll of the same name", construct="load-not-dominated"), "load after poll")
             else:
-                r3.ok("%s is dominated by the poll on %r" % (norm(c), x))
+                r3.ok("%s is preceded by the poll on %r" % (norm(c), x))
     # the Reaper picks the polling loader in wait mode
-    sel = [n for n in walk_shallow(init.node) if isinstance(n, ast.IfExp)]
+    sel = [n for n in walk_shallow(init.node) if isinstance(n, ast.IfExp) and "wait" in norm(n.test)]
     oksel = False
-    for s in sel:
-        if isinstance(s.test, ast.Name) and s.test.id == "wait" and isinstance(s.body, ast.Name) and s.body.id == "wait_to_load" \
-                and isinstance(s.orelse, ast.Name) and s.orelse.id == "_load":
+    for s_ in sel:
+        rb, ro = ctx.res.resolve_expr(init, s_.body), ctx.res.resolve_expr(init, s_.orelse)
+        if norm(s_.test).split(".")[-1].lstrip("_") == "wait" and rb is wl and ro is ld:
             oksel = True
-        elif isinstance(s.test, ast.Name) and s.test.id == "wait":
-            r3.bad(ctx.finding(r3.rule, init, s, "with wait set the Reaper does not select the polling loader: %s" % norm(s)), "wait selects wait_to_load")
+        elif norm(s_.test).split(".")[-1].lstrip("_") == "wait" and rb is ld and ro is wl:
+            r3.bad(ctx.finding(r3.rule, init, s_, "with wait set the Reaper selects the non-polling loader: %s" % norm(s_), construct="wait-selects-loader"), "wait selects the polling loader")
+            oksel = True
     if oksel:
-        r3.ok("Reaper.__init__ maps `wait_to_load if wait else _load` over the final result names")
-    else:
-        if not r3.findings:
-            raise AnalysisError("idiom changed: loader selection in Reaper.__init__ not recognised")
+        r3.ok("in wait mode the Reaper maps the polling loader over the final result names")
+    elif not r3.findings:
+        raise AnalysisError("idiom changed: loader selection in Reaper.__init__ not recognised")
     # final names: the Reaper's file list is built from the result template
     files = single_def(init, "files")
     need(files is not None, "anchor lost: Reaper.__init__ 'files'")
